@@ -335,6 +335,16 @@ func runC07Contract(s *kernel.Sim) {
 		s.Event("#%d withdraw(W%d as %s) -> %v", i, w, name[:6], err)
 		if err == nil {
 			accepted++
+			if s.Choose("lookafter", 2) == 0 {
+				// "leaves the wallet with nothing further to withdraw": what the pool says about the wallet right
+				// after it has paid it out (nothing else has happened on the chain or in the pool in between)
+				r, lerr := svc.Account(context.Background(), name)
+				if lerr != nil {
+					s.Event("#%d pool_account(W%d) after the withdrawal -> %v", i, w, lerr)
+				} else if r.Balance.Deposit.Sign() != 0 || r.Balance.Credit.Sign() != 0 {
+					s.Violate("deposit_view", "a wallet that has just been paid out still has a balance on the pool's books", "#%d withdraw(W%d) was accepted and settled; asked straight afterwards the pool says deposit %s, credit %s: it is withdrawable (or spendable) again", i, w, &r.Balance.Deposit, &r.Balance.Credit)
+				}
+			}
 		}
 	}
 	// things that take time: each is open for a few operations
@@ -538,9 +548,13 @@ func runC07Contract(s *kernel.Sim) {
 	openGates(nops, true)
 	mine()
 	settle()
-	for w := 1; w <= 2 && !s.Violated(); w++ {
-		time.Sleep(time.Millisecond)
-		withdraw(nops+w, w, false)
+	if s.Choose("finalsweep", 3) != 0 {
+		// (not always: a withdrawal makes the pool forget what it has cached for the wallet, and what the pool says
+		// about wallets nobody withdraws from is judged below, too)
+		for w := 1; w <= 2 && !s.Violated(); w++ {
+			time.Sleep(time.Millisecond)
+			withdraw(nops+w, w, false)
+		}
 	}
 	mine()
 	settle()
